@@ -5,13 +5,14 @@ From Callback Require Import CallbackSpec CallbackModel CallbackLists CallbackIn
 Import ListNotations.
 
 Section Fuel.
+Variable pick : picker.
 Variable sc : scripts.
 Variable maxd : nat.
 
 (* ---- more fuel never changes a finished run ---- *)
 Lemma spec_fuel_mono : forall f,
-  (forall d p lg acts r, sexec sc maxd f d p lg acts = Done r -> forall f', f <= f' -> sexec sc maxd f' d p lg acts = Done r) /\
-  (forall d p lg e sg r, sloop sc maxd f d p lg e sg = Done r -> forall f', f <= f' -> sloop sc maxd f' d p lg e sg = Done r).
+  (forall d p lg acts r, sexec pick sc maxd f d p lg acts = Done r -> forall f', f <= f' -> sexec pick sc maxd f' d p lg acts = Done r) /\
+  (forall d p lg e sg r, sloop pick sc maxd f d p lg e sg = Done r -> forall f', f <= f' -> sloop pick sc maxd f' d p lg e sg = Done r).
 Proof.
   induction f as [|f [IHe IHl]]; [split; intros; discriminate|]. split.
   - intros d p lg acts r H f' Hf. destruct f' as [|f']; [lia|]. assert (Hf' : f <= f') by lia.
@@ -19,13 +20,13 @@ Proof.
     + rewrite sexec_connect in *. destruct (sp_E p e && sp_L p l && (sg <? sp_nsg p)); eapply IHe; eassumption.
     + rewrite sexec_disconnect in *. destruct (sp_E p e && sp_L p l && (sg <? sp_nsg p)); eapply IHe; eassumption.
     + rewrite sexec_emit in *. destruct (sp_E p e && (sg <? sp_nsg p) && (d <? maxd)); [|eapply IHe; eassumption].
-      destruct (sloop sc maxd f d (sp_begin p e sg) lg e sg) as [[p1 lg1]| |] eqn:Hl; try discriminate.
+      destruct (sloop pick sc maxd f d (sp_begin p e sg) lg e sg) as [[p1 lg1]| |] eqn:Hl; try discriminate.
       rewrite (IHl _ _ _ _ _ _ Hl f' Hf'). eapply IHe; eassumption.
     + rewrite sexec_destroyL in *. destruct (sp_L p l); eapply IHe; eassumption.
     + rewrite sexec_destroyE in *. destruct (sp_E p e); eapply IHe; eassumption.
   - intros d p lg e sg r H f' Hf. destruct f' as [|f']; [lia|]. assert (Hf' : f <= f') by lia.
     rewrite sloop_S in *. destruct (sp_turn p e sg) as [c|]; [|exact H].
-    destruct (sexec sc maxd f (S d) (sp_advance p e sg c) _ _) as [[p2 lg2]| |] eqn:He; try discriminate.
+    destruct (sexec pick sc maxd f (S d) (sp_advance p e sg c) _ _) as [[p2 lg2]| |] eqn:He; try discriminate.
     rewrite (IHe _ _ _ _ _ He f' Hf'). destruct (sp_E p2 e); [eapply IHl; eassumption|exact H].
 Qed.
 
@@ -95,6 +96,8 @@ Proof.
 Qed.
 Lemma Later_disconnect p e sg l s : Later p (sp_disconnect p e sg l s).
 Proof. constructor; unfold sp_disconnect; cbn [sp_next sp_em sp_conns]; auto. intros. apply count_rm_first_le. Qed.
+Lemma Later_disconnect_at k p e sg l s : Later p (sp_disconnect_at k p e sg l s).
+Proof. constructor; unfold sp_disconnect_at; cbn [sp_next sp_em sp_conns]; auto. intros. apply count_rm_nth_le. Qed.
 Lemma Later_destroyL p l : Later p (sp_destroyL p l).
 Proof. constructor; unfold sp_destroyL; cbn [sp_next sp_em sp_conns]; auto. intros. apply count_filter_le. Qed.
 Lemma Later_destroyE p e : Later p (sp_destroyE p e).
@@ -106,6 +109,8 @@ Proof. intros Hn He H e sg Hc. rewrite He in *. specialize (H e sg Hc). lia. Qed
 Lemma WOK_connect p e sg l s : WOK p -> WOK (sp_connect p e sg l s).
 Proof. intros H. apply (WOK_next p); [cbn; lia|reflexivity|exact H]. Qed.
 Lemma WOK_disconnect p e sg l s : WOK p -> WOK (sp_disconnect p e sg l s).
+Proof. intros H. apply (WOK_next p); [cbn; lia|reflexivity|exact H]. Qed.
+Lemma WOK_disconnect_at k p e sg l s : WOK p -> WOK (sp_disconnect_at k p e sg l s).
 Proof. intros H. apply (WOK_next p); [cbn; lia|reflexivity|exact H]. Qed.
 Lemma WOK_destroyL p l : WOK p -> WOK (sp_destroyL p l).
 Proof. intros H. apply (WOK_next p); [cbn; lia|reflexivity|exact H]. Qed.
@@ -134,23 +139,23 @@ Proof.
 Qed.
 
 Lemma spec_later : forall f,
-  (forall d p lg acts p' lg', WOK p -> sexec sc maxd f d p lg acts = Done (p', lg') -> WOK p' /\ Later p p') /\
-  (forall d p lg e sg p' lg', WOK p -> em_cur (sp_em p e sg) <> [] -> sloop sc maxd f d p lg e sg = Done (p', lg') -> WOK p' /\ Later p p').
+  (forall d p lg acts p' lg', WOK p -> sexec pick sc maxd f d p lg acts = Done (p', lg') -> WOK p' /\ Later p p') /\
+  (forall d p lg e sg p' lg', WOK p -> em_cur (sp_em p e sg) <> [] -> sloop pick sc maxd f d p lg e sg = Done (p', lg') -> WOK p' /\ Later p p').
 Proof.
   induction f as [|f [IHe IHl]]; [split; intros; discriminate|]. split.
   - intros d p lg acts p' lg' HW H. destruct acts as [|a rest]; [rewrite sexec_nil in H; injection H as <- <-; split; [exact HW|apply Later_refl]|].
-    assert (Hstep : forall p1 lg1, WOK p1 -> FrameS p p1 -> Later p p1 -> sexec sc maxd f d p1 lg1 rest = Done (p', lg') -> WOK p' /\ Later p p').
+    assert (Hstep : forall p1 lg1, WOK p1 -> FrameS p p1 -> Later p p1 -> sexec pick sc maxd f d p1 lg1 rest = Done (p', lg') -> WOK p' /\ Later p p').
     { intros p1 lg1 HW1 HF1 HL1 H1. destruct (IHe _ _ _ _ _ _ HW1 H1) as [HW' HL']. split; [exact HW'|]. eapply Later_trans; eassumption. }
     destruct a as [e sg l s|e sg l s|e sg|l|e].
     + rewrite sexec_connect in H. destruct (sp_E p e && sp_L p l && (sg <? sp_nsg p)); [|eapply IHe; eassumption].
       eapply Hstep; [apply WOK_connect; exact HW|intros ? ?; reflexivity|apply Later_connect|exact H].
     + rewrite sexec_disconnect in H. destruct (sp_E p e && sp_L p l && (sg <? sp_nsg p)); [|eapply IHe; eassumption].
-      eapply Hstep; [apply WOK_disconnect; exact HW|intros ? ?; reflexivity|apply Later_disconnect|exact H].
+      eapply Hstep; [apply WOK_disconnect_at; exact HW|intros ? ?; reflexivity|apply Later_disconnect_at|exact H].
     + rewrite sexec_emit in H. destruct (sp_E p e && (sg <? sp_nsg p) && (d <? maxd)); [|eapply IHe; eassumption].
-      destruct (sloop sc maxd f d (sp_begin p e sg) lg e sg) as [[p1 lg1]| |] eqn:Hl; try discriminate.
+      destruct (sloop pick sc maxd f d (sp_begin p e sg) lg e sg) as [[p1 lg1]| |] eqn:Hl; try discriminate.
       assert (Hcur1 : em_cur (sp_em (sp_begin p e sg) e sg) <> []) by (unfold sp_begin; cbn [sp_em]; rewrite upd2_same; discriminate).
       destruct (IHl _ _ _ _ _ _ _ (WOK_begin p e sg HW) Hcur1 Hl) as [HW1 HL1].
-      pose proof (proj2 (spec_frame sc maxd f) _ _ _ _ _ _ _ Hl) as (HF1 & HF2 & HF3).
+      pose proof (proj2 (spec_frame sc maxd pick f) _ _ _ _ _ _ _ Hl) as (HF1 & HF2 & HF3).
       eapply Hstep; [apply WOK_end; exact HW1| | |exact H].
       * intros e' sg'. unfold sp_end, sp_begin in *; cbn [sp_em] in *. destruct (pair_dec e' sg' e sg) as [Heq|Hne].
         -- injection Heq as -> ->. rewrite upd2_same in *. cbn [em_cur] in *. rewrite HF2. reflexivity.
@@ -168,9 +173,9 @@ Proof.
       eapply Hstep; [apply WOK_destroyE; exact HW|intros ? ?; reflexivity|apply Later_destroyE|exact H].
   - intros d p lg e sg p' lg' HW Hcur H. rewrite sloop_S in H.
     destruct (sp_turn p e sg) as [c|]; [|injection H as <- <-; split; [exact HW|apply Later_refl]].
-    destruct (sexec sc maxd f (S d) (sp_advance p e sg c) _ _) as [[p2 lg2]| |] eqn:He; try discriminate.
+    destruct (sexec pick sc maxd f (S d) (sp_advance p e sg c) _ _) as [[p2 lg2]| |] eqn:He; try discriminate.
     destruct (IHe _ _ _ _ _ _ (WOK_advance p e sg c HW Hcur) He) as [HW2 HL2].
-    pose proof (proj1 (spec_frame sc maxd f) _ _ _ _ _ _ He) as HF2.
+    pose proof (proj1 (spec_frame sc maxd pick f) _ _ _ _ _ _ He) as HF2.
     assert (HLa : Later p p2).
     { destruct HL2 as [a1 a2 a3]. unfold sp_advance in *; cbn [sp_em sp_next sp_conns] in *. constructor; [exact a1| |exact a3].
       intros e' sg' Hc. destruct (pair_dec e' sg' e sg) as [Heq|Hne].
@@ -206,8 +211,8 @@ Proof.
 Qed.
 
 Lemma loop_terminates d :
-  (forall p lg acts, WOK p -> exists f r, sexec sc maxd f (S d) p lg acts = Done r) ->
-  forall n p lg e sg, WOK p -> todo p e sg <= n -> exists f r, sloop sc maxd f d p lg e sg = Done r.
+  (forall p lg acts, WOK p -> exists f r, sexec pick sc maxd f (S d) p lg acts = Done r) ->
+  forall n p lg e sg, WOK p -> todo p e sg <= n -> exists f r, sloop pick sc maxd f d p lg e sg = Done r.
 Proof.
   intros Pdeep. induction n as [|n IH]; intros p lg e sg HW Hn.
   - exists 1. rewrite sloop_S. destruct (sp_turn p e sg) as [c|] eqn:Ht; [|eexists; reflexivity]. exfalso.
@@ -217,11 +222,11 @@ Proof.
   - destruct (sp_turn p e sg) as [c|] eqn:Ht; [|exists 1; rewrite sloop_S, Ht; eexists; reflexivity].
     assert (Hcur : em_cur (sp_em p e sg) <> []) by (unfold sp_turn in Ht; destruct (em_cur (sp_em p e sg)); [discriminate|discriminate]).
     set (pa := sp_advance p e sg c).
-    destruct (Pdeep pa (mkInv e sg (c_l c) (c_s c) :: lg) (sc (c_l c) (c_s c)) (WOK_advance p e sg c HW Hcur)) as (f2 & [p2 lg2] & He).
+    destruct (Pdeep pa (mkInv e sg (c_l c) (c_s c) :: lg) (sc (mkInv e sg (c_l c) (c_s c) :: lg) (c_l c) (c_s c)) (WOK_advance p e sg c HW Hcur)) as (f2 & [p2 lg2] & He).
     destruct (sp_E p2 e) eqn:HE2.
     + assert (Htodo : todo p2 e sg <= n).
       { destruct (proj1 (spec_later f2) _ _ _ _ _ _ (WOK_advance p e sg c HW Hcur) He) as [HW2 [a1 a2 a3]].
-        pose proof (proj1 (spec_frame sc maxd f2) _ _ _ _ _ _ He e sg) as HF.
+        pose proof (proj1 (spec_frame sc maxd pick f2) _ _ _ _ _ _ He e sg) as HF.
         unfold todo in *. rewrite HF. fold pa in a1, a2, a3. 
         assert (Hca : em_cur (sp_em pa e sg) = S (c_seq c) :: tl (em_cur (sp_em p e sg))) by (unfold pa, sp_advance; cbn [sp_em]; rewrite upd2_same; reflexivity).
         assert (Hwa : em_w (sp_em pa e sg) = em_w (sp_em p e sg)) by (unfold pa, sp_advance; cbn [sp_em]; rewrite upd2_same; reflexivity).
@@ -251,42 +256,42 @@ Proof.
     + exists (S f2). rewrite sloop_S, Ht. fold pa. rewrite He, HE2. eexists; reflexivity.
 Qed.
 
-Lemma exec_terminates : forall k d, maxd - d <= k -> forall acts p lg, WOK p -> exists f r, sexec sc maxd f d p lg acts = Done r.
+Lemma exec_terminates : forall k d, maxd - d <= k -> forall acts p lg, WOK p -> exists f r, sexec pick sc maxd f d p lg acts = Done r.
 Proof.
   induction k as [|k IHk]; intros d Hd.
   - (* at the depth limit every emission is skipped *)
     induction acts as [|a rest IH]; intros p lg HW; [exists 1; eexists; reflexivity|].
-    assert (Hskip : forall p1, WOK p1 -> exists f r, sexec sc maxd f d p1 lg rest = Done r) by (intros; apply IH; assumption).
+    assert (Hskip : forall p1, WOK p1 -> exists f r, sexec pick sc maxd f d p1 lg rest = Done r) by (intros; apply IH; assumption).
     assert (Hd' : (d <? maxd) = false) by (apply Nat.ltb_ge; lia).
     destruct a as [e sg l s|e sg l s|e sg|l|e].
     + destruct (sp_E p e && sp_L p l && (sg <? sp_nsg p)) eqn:Hg.
-      * destruct (Hskip (sp_connect p e sg l s)) as (f & r & H); [first [apply WOK_connect|apply WOK_disconnect|apply WOK_destroyL|apply WOK_destroyE]; exact HW|].
+      * destruct (Hskip (sp_connect p e sg l s)) as (f & r & H); [first [apply WOK_connect|apply WOK_disconnect_at|apply WOK_destroyL|apply WOK_destroyE]; exact HW|].
         exists (S f), r. rewrite sexec_connect, Hg. exact H.
       * destruct (Hskip p HW) as (f & r & H). exists (S f), r. rewrite sexec_connect, Hg. exact H.
     + destruct (sp_E p e && sp_L p l && (sg <? sp_nsg p)) eqn:Hg.
-      * destruct (Hskip (sp_disconnect p e sg l s)) as (f & r & H); [first [apply WOK_connect|apply WOK_disconnect|apply WOK_destroyL|apply WOK_destroyE]; exact HW|].
+      * destruct (Hskip (sp_disconnect_at (pick p e sg l s) p e sg l s)) as (f & r & H); [first [apply WOK_connect|apply WOK_disconnect_at|apply WOK_destroyL|apply WOK_destroyE]; exact HW|].
         exists (S f), r. rewrite sexec_disconnect, Hg. exact H.
       * destruct (Hskip p HW) as (f & r & H). exists (S f), r. rewrite sexec_disconnect, Hg. exact H.
     + destruct (Hskip p HW) as (f & r & H). exists (S f), r. rewrite sexec_emit, Hd', andb_false_r. exact H.
     + destruct (sp_L p l) eqn:Hg.
-      * destruct (Hskip (sp_destroyL p l)) as (f & r & H); [first [apply WOK_connect|apply WOK_disconnect|apply WOK_destroyL|apply WOK_destroyE]; exact HW|].
+      * destruct (Hskip (sp_destroyL p l)) as (f & r & H); [first [apply WOK_connect|apply WOK_disconnect_at|apply WOK_destroyL|apply WOK_destroyE]; exact HW|].
         exists (S f), r. rewrite sexec_destroyL, Hg. exact H.
       * destruct (Hskip p HW) as (f & r & H). exists (S f), r. rewrite sexec_destroyL, Hg. exact H.
     + destruct (sp_E p e) eqn:Hg.
-      * destruct (Hskip (sp_destroyE p e)) as (f & r & H); [first [apply WOK_connect|apply WOK_disconnect|apply WOK_destroyL|apply WOK_destroyE]; exact HW|].
+      * destruct (Hskip (sp_destroyE p e)) as (f & r & H); [first [apply WOK_connect|apply WOK_disconnect_at|apply WOK_destroyL|apply WOK_destroyE]; exact HW|].
         exists (S f), r. rewrite sexec_destroyE, Hg. exact H.
       * destruct (Hskip p HW) as (f & r & H). exists (S f), r. rewrite sexec_destroyE, Hg. exact H.
-  - assert (Pdeep : forall p lg acts, WOK p -> exists f r, sexec sc maxd f (S d) p lg acts = Done r).
+  - assert (Pdeep : forall p lg acts, WOK p -> exists f r, sexec pick sc maxd f (S d) p lg acts = Done r).
     { intros p lg acts HW. apply (IHk (S d)); [lia|exact HW]. }
     induction acts as [|a rest IH]; intros p lg HW; [exists 1; eexists; reflexivity|].
-    assert (Hskip : forall p1 lg1, WOK p1 -> exists f r, sexec sc maxd f d p1 lg1 rest = Done r) by (intros; apply IH; assumption).
+    assert (Hskip : forall p1 lg1, WOK p1 -> exists f r, sexec pick sc maxd f d p1 lg1 rest = Done r) by (intros; apply IH; assumption).
     destruct a as [e sg l s|e sg l s|e sg|l|e].
     + destruct (sp_E p e && sp_L p l && (sg <? sp_nsg p)) eqn:Hg.
-      * destruct (Hskip (sp_connect p e sg l s) lg) as (f & r & H); [first [apply WOK_connect|apply WOK_disconnect|apply WOK_destroyL|apply WOK_destroyE]; exact HW|].
+      * destruct (Hskip (sp_connect p e sg l s) lg) as (f & r & H); [first [apply WOK_connect|apply WOK_disconnect_at|apply WOK_destroyL|apply WOK_destroyE]; exact HW|].
         exists (S f), r. rewrite sexec_connect, Hg. exact H.
       * destruct (Hskip p lg HW) as (f & r & H). exists (S f), r. rewrite sexec_connect, Hg. exact H.
     + destruct (sp_E p e && sp_L p l && (sg <? sp_nsg p)) eqn:Hg.
-      * destruct (Hskip (sp_disconnect p e sg l s) lg) as (f & r & H); [first [apply WOK_connect|apply WOK_disconnect|apply WOK_destroyL|apply WOK_destroyE]; exact HW|].
+      * destruct (Hskip (sp_disconnect_at (pick p e sg l s) p e sg l s) lg) as (f & r & H); [first [apply WOK_connect|apply WOK_disconnect_at|apply WOK_destroyL|apply WOK_destroyE]; exact HW|].
         exists (S f), r. rewrite sexec_disconnect, Hg. exact H.
       * destruct (Hskip p lg HW) as (f & r & H). exists (S f), r. rewrite sexec_disconnect, Hg. exact H.
     + destruct (sp_E p e && (sg <? sp_nsg p) && (d <? maxd)) eqn:Hg.
@@ -299,49 +304,51 @@ Proof.
         apply (proj1 (spec_fuel_mono f2) _ _ _ _ _ H). apply Nat.le_max_r.
       * destruct (Hskip p lg HW) as (f & r & H). exists (S f), r. rewrite sexec_emit, Hg. exact H.
     + destruct (sp_L p l) eqn:Hg.
-      * destruct (Hskip (sp_destroyL p l) lg) as (f & r & H); [first [apply WOK_connect|apply WOK_disconnect|apply WOK_destroyL|apply WOK_destroyE]; exact HW|].
+      * destruct (Hskip (sp_destroyL p l) lg) as (f & r & H); [first [apply WOK_connect|apply WOK_disconnect_at|apply WOK_destroyL|apply WOK_destroyE]; exact HW|].
         exists (S f), r. rewrite sexec_destroyL, Hg. exact H.
       * destruct (Hskip p lg HW) as (f & r & H). exists (S f), r. rewrite sexec_destroyL, Hg. exact H.
     + destruct (sp_E p e) eqn:Hg.
-      * destruct (Hskip (sp_destroyE p e) lg) as (f & r & H); [first [apply WOK_connect|apply WOK_disconnect|apply WOK_destroyL|apply WOK_destroyE]; exact HW|].
+      * destruct (Hskip (sp_destroyE p e) lg) as (f & r & H); [first [apply WOK_connect|apply WOK_disconnect_at|apply WOK_destroyL|apply WOK_destroyE]; exact HW|].
         exists (S f), r. rewrite sexec_destroyE, Hg. exact H.
       * destruct (Hskip p lg HW) as (f & r & H). exists (S f), r. rewrite sexec_destroyE, Hg. exact H.
 Qed.
 
-Lemma spec_step_terminates p a : WOK p -> exists f0 p' lg, forall f, f0 <= f -> spec_step sc maxd f p a = Done (p', lg) /\ WOK p'.
+Lemma spec_step_terminates p a : WOK p -> exists f0 p' lg, forall f, f0 <= f -> spec_step pick sc maxd f p a = Done (p', lg) /\ WOK p'.
 Proof.
   intros HW. destruct (exec_terminates maxd 0 (Nat.le_sub_l _ _) [a] p [] HW) as (f0 & [p' lg] & H).
   exists f0, p', lg. intros f Hf. split; [apply (proj1 (spec_fuel_mono f0) _ _ _ _ _ H f Hf)|].
   apply (proj1 (spec_later f0) _ _ _ _ _ _ HW H).
 Qed.
 
-Lemma spec_history_terminates : forall ops p, WOK p ->
-  exists f0 p' lgs, forall f, f0 <= f -> hrun (spec_step sc maxd f) p ops = HDone p' lgs.
+Lemma WOK_init ne nl nsg : WOK (sp_init ne nl nsg).
+Proof. intros e sg H. cbn in H. congruence. Qed.
+
+End Fuel.
+
+(* ---- whole histories: slot behaviours (and the reference object's choice among identical connections) may depend
+        on the logs of the earlier top-level operations ---- *)
+Lemma spec_history_terminates (hpick : list (list inv) -> picker) (hsc : hscripts) maxd : forall ops h p, WOK p ->
+  exists f0 p' lgs, forall f, f0 <= f -> hrun (fun h => spec_step (hpick h) (hsc h) maxd f) h p ops = HDone p' lgs.
 Proof.
-  induction ops as [|a r IH]; intros p HW; [exists 0, p, []; reflexivity|].
-  destruct (spec_step_terminates p a HW) as (f1 & p1 & lg1 & H1).
-  destruct (H1 f1 (le_n _)) as [_ HW1]. destruct (IH p1 HW1) as (f2 & p2 & lgs & H2).
+  induction ops as [|a r IH]; intros h p HW; [exists 0, p, []; reflexivity|].
+  destruct (spec_step_terminates (hpick h) (hsc h) maxd p a HW) as (f1 & p1 & lg1 & H1).
+  destruct (H1 f1 (le_n _)) as [_ HW1]. destruct (IH (lg1 :: h) p1 HW1) as (f2 & p2 & lgs & H2).
   exists (Nat.max f1 f2), p2, (lg1 :: lgs). intros f Hf. cbn [hrun].
   rewrite (proj1 (H1 f (Nat.le_trans _ _ _ (Nat.le_max_l _ _) Hf))), (H2 f (Nat.le_trans _ _ _ (Nat.le_max_r _ _) Hf)). reflexivity.
 Qed.
 
-Lemma WOK_init ne nl nsg : WOK (sp_init ne nl nsg).
-Proof. intros e sg H. cbn in H. congruence. Qed.
-
 (* every history of the model completes with enough fuel, and the result does not depend on how much *)
-Lemma model_history_terminates ne nl nsg ops :
-  exists f0 st lgs, forall f, f0 <= f -> hrun (step sc maxd f) (init ne nl nsg) ops = HDone st lgs.
+Lemma model_history_terminates (hsc : hscripts) maxd ne nl nsg ops :
+  exists f0 st lgs, forall f, f0 <= f -> hrun (fun h => step (hsc h) maxd f) [] (init ne nl nsg) ops = HDone st lgs.
 Proof.
-  destruct (spec_history_terminates ops (sp_init ne nl nsg) (WOK_init ne nl nsg)) as (f0 & p' & lgs & Hs).
-  pose proof (histories_match sc maxd f0 ne nl nsg ops) as H0. rewrite (Hs f0 (le_n _)) in H0.
-  destruct (hrun (step sc maxd f0) (init ne nl nsg) ops) as [st0 lgs0| |] eqn:Hm0; try contradiction.
+  destruct (spec_history_terminates (fun _ => oldest) hsc maxd ops [] (sp_init ne nl nsg) (WOK_init ne nl nsg)) as (f0 & p' & lgs & Hs).
+  pose proof (histories_match hsc maxd f0 ne nl nsg ops) as H0. rewrite (Hs f0 (le_n _)) in H0.
+  destruct (hrun (fun h => step (hsc h) maxd f0) [] (init ne nl nsg) ops) as [st0 lgs0| |] eqn:Hm0; try contradiction.
   exists f0, st0, lgs0. intros f Hf.
   (* fuel monotonicity lifted to histories *)
-  revert Hm0. generalize (init ne nl nsg) st0 lgs0. clear H0 Hs. induction ops as [|a r IH]; intros s0 st1 lgs1 H; cbn [hrun] in *; [exact H|].
-  unfold step in *. destruct (exec sc maxd f0 0 s0 [] [a]) as [[s1 lg1]| |] eqn:He; try discriminate.
-  rewrite (proj1 (model_fuel_mono f0) _ _ _ _ _ He f Hf).
-  destruct (hrun (fun st a0 => exec sc maxd f0 0 st [] [a0]) s1 r) as [s2 lgs2| |] eqn:Hr; try discriminate.
-  rewrite (IH s1 s2 lgs2 Hr). exact H.
+  revert Hm0. generalize (init ne nl nsg) st0 lgs0 (@nil (list inv)). clear H0 Hs. induction ops as [|a r IH]; intros s0 st1 lgs1 h H; cbn [hrun] in *; [exact H|].
+  unfold step in *. destruct (exec (hsc h) maxd f0 0 s0 [] [a]) as [[s1 lg1]| |] eqn:He; try discriminate.
+  rewrite (proj1 (model_fuel_mono (hsc h) maxd f0) _ _ _ _ _ He f Hf).
+  destruct (hrun (fun h0 st a0 => exec (hsc h0) maxd f0 0 st [] [a0]) (lg1 :: h) s1 r) as [s2 lgs2| |] eqn:Hr; try discriminate.
+  rewrite (IH s1 s2 lgs2 (lg1 :: h) Hr). exact H.
 Qed.
-
-End Fuel.
